@@ -91,6 +91,12 @@ def run(ctx):
         for c in cfgs:
             c["gmetrics"] = rng.choice([[], ["DSC"], ["DSC", "IOU"]])
             c["sgt"] = rng.random() < 0.3
+            if rng.random() < 0.35:
+                # a user's own edge-case handler, possibly NOT covering every instance metric (an uncovered metric with zero true
+                # positives is refused -- by a fresh evaluator and by a used one alike, and without leaving a trace in the handler)
+                ms = rng.sample(impl.METRICS, rng.randint(0, 4))
+                c["table"] = {m: [rng.randrange(5) for _k in range(4)] for m in ms}
+                c["std"] = rng.randrange(5)
             if c["input"] != "semantic" and rng.random() < 0.4:
                 from harness.props.c12 import make_groups
                 c["groups"], c["groups_spec"] = make_groups(rng)
@@ -128,6 +134,9 @@ def run(ctx):
                             p = r.copy()
                             for _k in range(rng.randint(0, 3)):
                                 p.reshape(-1)[rng.randrange(p.size)] = rng.choice([0, 1, 2])
+                    if rng.random() < 0.2 and "groups" not in cfgs[i]:
+                        p = np.zeros_like(p) if rng.random() < 0.6 else p
+                        r = np.zeros_like(r) if rng.random() < 0.4 else r          # zero true positives: the handler decides
                     inplace = False
                     if bufs[i] is not None and rng.random() < 0.5:
                         # the caller refills the SAME ndarray objects with the next case (new content of the buffers' shape and dtype)
